@@ -16,7 +16,8 @@ ASSUMPTIONS = ["the table is a list keyed by the 32-bit cookie (as in the implem
 
 
 def corpus():
-    return []
+    from props import c07
+    return c07.corpus()
 
 
 def history(rng, key, n):
